@@ -153,6 +153,20 @@ pub fn judge(ctx: &mut Ctx, b: &[u8], forms: &[&'static str]) {
             return;
         }
     };
+    // the same decoded value encoded from a destructor during an unrelated unwind must give e1
+    if ctx.rng.chance(1, 4) {
+        match exec::encode_msg(&cm, Wk::WhileUnwinding) {
+            exec::EncOut::Ok(e) if e.bytes == e1 => ctx.rep.bucket("reencode.while_unwinding"),
+            exec::EncOut::Ok(e) => {
+                ctx.violate("C10:reencode-differs-while-unwinding", format!("encode(m) gives {} octets normally and {} different octets when it runs in a destructor during an unwind", e1.len(), e.bytes.len()), wit);
+                return;
+            }
+            exec::EncOut::Panic(_) => {
+                ctx.violate("C10:reencode-refused-while-unwinding", "encode(m) succeeds normally but is refused when it runs in a destructor during an unwind", wit);
+                return;
+            }
+        }
+    }
     let consumed = b.len() - run.remaining;
     let canonical = b[..consumed.min(b.len())] == e1[..];
     ctx.rep.case(b, !canonical);
